@@ -29,8 +29,10 @@ class EmdStub:
     def __init__(self, ctx):
         self.ctx = ctx
         self.calls = []
+        self.options = []        # solver options other than `log` the code passes: the assumed contract is that of the default solver
 
     def emd2(self, a, b, M, log=False, **kw):
+        self.options += sorted(kw)
         i = len(self.calls)
         n, m = len(a), len(b)
         u = np.array([self.ctx.var(f"emd{i}_u{j}") for j in range(n)], dtype=object)
@@ -64,6 +66,18 @@ class Evaluate(SxContract):
             P = P.copy()
             for k in range(self.K):
                 P[0, k] = sx.Sx(dag.const(1 if k == 0 else 0))
+        self.tvars = []
+        if self.structure == "clipped-sym":
+            # row 0 lies beyond the clipping bounds but is SYMBOLIC: entries eps*t_k (t_k in (0, 1/K)) and 1 - eps*sum t_k;
+            # the returned score must not depend on the t_k (their returned gradient is zero)
+            P = P.copy()
+            ts = [ctx.var(f"t_{k}", "+", lo=0.05, hi=0.9 / self.K) for k in range(1, self.K)]
+            for t in ts:
+                ctx.assume(sx.Sx(dag.const(1)) / self.K - t, "+")
+            self.tvars = [f"t_{k}" for k in range(1, self.K)]
+            for k in range(1, self.K):
+                P[0, k] = eps * ts[k - 1]
+            P[0, 0] = 1 - sum((eps * t for t in ts[1:]), eps * ts[0])
         A = sx.sym_symmetric(ctx, "a", self.n, lo=-1.0, hi=2.0) if self.needA else None
         self.g = getattr(G, self.cls)(ovo=self.ovo)
         self.g.epsilon = eps          # symbolic clipping precision (the default 1e-12 is one instance)
@@ -85,6 +99,9 @@ class Evaluate(SxContract):
     def ensures(self, inp, out):
         n, K = self.n, self.K
         P = inp["P"]
+        if self.kind == "wasserstein":
+            yield ("ot.emd2 is called with the library's default solver options (precondition of its assumed optimality contract: no iteration cap, "
+                   "no alternative solver)"), prove.holds(not self.stub.options, f"options passed: {sorted(set(self.stub.options))}")
         if self.mode == "C01":
             if self.kind != "wasserstein":
                 yield "score==spec", prove.eq(out["score"], out["spec"])
@@ -98,15 +115,18 @@ class Evaluate(SxContract):
         if getattr(grad, "shape", None) != P.shape:
             return
         sn = sx.lift(out["score_g"])
-        rows = range(1, n) if self.structure == "clipped" else range(n)
+        rows = range(1, n) if self.structure in ("clipped", "clipped-sym") else range(n)
         for i in rows:
             for k in range(K - 1):
                 lhs = dag.diff(sn, f"p_{i}_{k}", {})
                 rhs = dag.sub(sx.lift(grad[i, k]), sx.lift(grad[i, K - 1]))
                 yield f"dscore/dP[{i},{k}]", prove.eq(lhs, rhs, smooth_only=True)
-        if self.structure == "clipped":
+        if self.structure in ("clipped", "clipped-sym"):
             for k in range(K):
                 yield f"clipped-grad[0,{k}]==0", prove.eq(grad[0, k], 0)
+        for tv in self.tvars:
+            yield f"the returned score does not depend on an entry beyond the clipping bounds (d score / d {tv} == 0, as its returned gradient)", \
+                prove.eq(dag.diff(sn, tv, {}), 0, smooth_only=True)
 
     def _wasserstein_score(self, inp, out):
         n, K = self.n, self.K
